@@ -447,6 +447,15 @@ fn literal_texts(tier: &str) -> Vec<String> {
         out.push(format!("{}.0000000001#", m));
         out.push(format!("{}.9999999999#", m - 1));
     }
+    // fractions beyond the range of their type
+    for n in [38usize, 39, 40, 60, 308, 309, 310, 400] {
+        out.push(format!("{}.5", "9".repeat(n)));
+        out.push(format!("{}.5#", "9".repeat(n)));
+        out.push(format!("1{}.0", "0".repeat(n)));
+        out.push(format!("1{}.0#", "0".repeat(n)));
+    }
+    out.push("340282346638528859811704183484516925440.0".to_string());
+    out.push("340282356779733661637539395458142568448.0".to_string());
     for s in [
         "1.0000000596046447753906251", "1.0000000596046447753906249", "1.000000059604644775390625", "0.50000002980232238769531251", "0.50000002980232238769531249",
         "1.00000000000000011102230246251565404236316680908203126#", "1.00000000000000011102230246251565404236316680908203124#", ".1000000000000000055511151231257827", ".1000000000000000055511151231257827#",
